@@ -25,6 +25,8 @@ SUMCOLS = ["cat", "name", "short_name", "counts", "total_duration", "cat_id", "n
 
 
 def run(db, chk) -> None:
+    from ..specs.discipline import check_shared_trace_untouched
+    check_shared_trace_untouched(db, chk, "C17.R-shared-trace")
     from ..specs.discipline import check_stateless
     check_stateless(db, chk, "C17.R-stateless", ['hta.trace_diff'])      # the result is a function of the arguments: no state kept between calls, caller's Trace untouched
     chk.floor("C17.R-stateless", 4)
